@@ -390,3 +390,66 @@ def stmt_has(node: Node, pred: Callable[[ast.AST], bool]) -> bool:
         if pred(n):
             return True
     return False
+
+
+def feasible_paths(
+    cfg: "CFG",
+    start: int,
+    tracked: Iterable[str],
+    env0: Optional[dict] = None,
+    max_visits: int = 2,
+    skip_labels: Iterable[str] = ("exc", "uncaught", "catch"),
+    limit: int = 20000,
+):
+    """Enumerate paths start ->* (exit | raise) keeping constant values of `tracked` local names.
+
+    A branch whose test evaluates to a constant under the tracked values is followed only in
+    that direction (flag protocols such as `first = True ... if first: ...; first = False`).
+    Loops are unrolled: every node is visited at most `max_visits` times per path.
+    """
+    from .pred import Unknown, eval_expr
+
+    tracked = set(tracked)
+    skip = set(skip_labels)
+    out: List[List[int]] = []
+    stack = [(start, dict(env0 or {}), [start], {start: 1})]
+    ends = {cfg.exit, cfg.raise_exit}
+    while stack:
+        nid, env, path, visits = stack.pop()
+        if len(out) > limit:
+            raise AnalysisError("feasible_paths: path limit exceeded")
+        if nid in ends:
+            out.append(path)
+            continue
+        node = cfg.nodes[nid]
+        env = dict(env)
+        if node.kind == "stmt" and isinstance(node.ast, ast.Assign) and len(node.ast.targets) == 1 and isinstance(node.ast.targets[0], ast.Name) and node.ast.targets[0].id in tracked:
+            try:
+                env[node.ast.targets[0].id] = eval_expr(node.ast.value, env)
+            except Unknown:
+                env.pop(node.ast.targets[0].id, None)
+        elif node.kind == "stmt" and node.ast is not None:
+            # any other binding of a tracked name makes it unknown
+            for n in ast.walk(node.ast):
+                if isinstance(n, ast.Name) and isinstance(n.ctx, ast.Store) and n.id in tracked:
+                    env.pop(n.id, None)
+        decided = None
+        if node.kind == "test":
+            try:
+                decided = "T" if eval_expr(node.ast.test, {k: v for k, v in env.items()}) else "F"
+            except Unknown:
+                decided = None
+        succs = cfg.succ[nid]
+        if not succs and nid not in ends:
+            out.append(path)
+        for m, label in succs:
+            if label in skip:
+                continue
+            if decided is not None and label in ("T", "F") and label != decided:
+                continue
+            if visits.get(m, 0) >= max_visits:
+                continue
+            v2 = dict(visits)
+            v2[m] = v2.get(m, 0) + 1
+            stack.append((m, env, path + [m], v2))
+    return out
